@@ -60,6 +60,10 @@ LIVENESS_BUDGET = 60.0
 
 def setup(tier):
     fixture.build(["fx_async", "fx_async_otel"])
+    # a consumer that leaves early closes the traced generator from another context; opentelemetry logs "Failed to detach
+    # context" with a traceback for each - harmless here, and megabytes of noise
+    import logging
+    logging.getLogger("opentelemetry.context").setLevel(logging.CRITICAL)
 
 
 # ------------------------------------------------------------------------------------
@@ -111,7 +115,7 @@ def _frame(kind, ch: Optional[Choices], uniq, via):
                 # execute_ws itself (no generated model in the way): a result whose data is falsy
                 return {"k": "next", "data": [None, {}, [], 0, "", False][d("fr.falsy_which", 6)], "optional": True,
                         "ext": bool(d("fr.ext", 2))}
-        return {"k": "next", "data": data, "ext": bool(d("fr.ext", 2))}
+        return {"k": "next", "data": data, "ext": bool(d("fr.ext", 2)), "errs": (1 + d("fr.nerrs", 2)) if (ch is not None and d("fr.errs", 6) == 5) else 0}
     if kind == "error":
         n = d("fr.nerr", 4) or 1
         if ch is not None and d("fr.noerr", 8) == 7:
@@ -313,7 +317,8 @@ def make_call(mods, variant, sub, client):
         return it, "Counter", variables, "counter"
     if via == "gen_searching":
         # GraphQL variables named like the method's own locals (query, variables, data)
-        args = {"query": ["whale", "", "{ not graphql }"][v % 3], "variables": [pkg.UNSET, None, 5][v % 3], "data": [pkg.UNSET, "d", None][(v // 3) % 3]}
+        args = {"query": ["whale", "", "{ not graphql }"][v % 3], "variables": [pkg.UNSET, None, 5][v % 3], "data": [pkg.UNSET, "d", None][(v // 3) % 3],
+                "response": [pkg.UNSET, "r", None][(v + 1) % 3]}
         it = client.searching(**args, **kw)
         return it, "Searching", dict(args), "searching"
     if via == "gen_item_added":
